@@ -410,10 +410,11 @@ func (a *Analyzer) analyzeResultObject(info *ConstructorInfo, structType reflect
 
 	info.Returns = returns
 
-	// Check if function also returns error
-	if info.Type.NumOut() == 2 {
-		secondReturn := info.Type.Out(1)
-		if implementsError(secondReturn) {
+	// Check if function also returns error: as with ordinary constructors, an error in
+	// last position is the constructor's error, however many results precede it
+	if n := info.Type.NumOut(); n >= 2 {
+		lastReturn := info.Type.Out(n - 1)
+		if implementsError(lastReturn) {
 			info.HasErrorReturn = true
 		}
 	}
